@@ -373,6 +373,21 @@ def r176(ctx, repo):
                 if len(set(sizes.values())) > 1:
                     fail("stores parallel", f"{what}: the stores have "
                          f"different lengths {sizes}")
+    # negative integer indices count from the last *event* (not from the
+    # number of contours cached so far), whatever was accessed before
+    for me in (2, None):
+        for seq in itertools.chain.from_iterable(
+                itertools.product((-1, -2, 0, 3), repeat=n)
+                for n in (1, 2, 3)):
+            m = LazyModel(repo, 4, me)
+            for k, idx in enumerate(seq):
+                r = m.get(idx)
+                nev += 1
+                if r != ("ok", ("contour", idx % 4)):
+                    fail("returns requested contour",
+                         f"max_events={me}, 4 events, accesses "
+                         f"{list(seq[:k + 1])}: [{idx}] -> {r!r}, expected "
+                         f"the contour of event {idx % 4}")
     # slices, negative indices, errors
     m = LazyModel(repo, 4, 2)
     r = m.get(slice(1, 4))
